@@ -11,7 +11,17 @@ func DecodeSecret(secret string) ([]byte, error) {
 		secret = secret + strings.Repeat("=", 8-n)
 	}
 
-	secret = strings.ToUpper(secret)
+	return base32.StdEncoding.DecodeString(upperASCII(secret))
+}
 
-	return base32.StdEncoding.DecodeString(secret)
+// upperASCII folds a-z to A-Z and leaves every other byte alone. strings.ToUpper
+// would also map non-ASCII letters such as U+017F or U+0131 onto base32 letters.
+func upperASCII(s string) string {
+	b := []byte(s)
+	for i, c := range b {
+		if 'a' <= c && c <= 'z' {
+			b[i] = c - 'a' + 'A'
+		}
+	}
+	return string(b)
 }
